@@ -381,6 +381,8 @@ var c09Universes = []c09Universe{
 	// integers and floats side by side (only sum / avg / count of the raw values are defined on it)
 	// (3 / 3.5 and -3 / -3.5 share their integer parts: an extreme taken on truncated values is wrong)
 	{"mixed", []string{"a", "a1", "b", "b1"}, []string{"3", "3.5", "-3", "-3.5"}, "mixed"},
+	// decimal text with leading zeros (read in base ten: 010 is ten, 08 is eight)
+	{"zeros", []string{"a", "a1", "b", "b1"}, []string{"010", "08", "007", "20"}, "mixed"},
 	// empty values and (through substr) empty group values: ('', 'b') and ('b', '') are different tuples
 	{"empties", []string{"a", "ab", "b", "bc"}, []string{"", "b", "c"}, ""},
 }
@@ -499,7 +501,7 @@ func c09Units(t core.Tier) []c09Unit {
 			}
 		}
 		for u := range c09Universes {
-			if n := c09Universes[u].name; (n == "mixed" || n == "bigint" || n == "nearfloat") && len(g) > 1 {
+			if n := c09Universes[u].name; (n == "mixed" || n == "bigint" || n == "nearfloat" || n == "zeros") && len(g) > 1 {
 				continue // (the universes made for one accumulator each: at most one grouping expression)
 			}
 			if ne > 0 || c09Universes[u].name == "empties" {
